@@ -17,6 +17,11 @@ def main():
     ck = Check("C05")
     ck.cov["trusted_base"] = TRUSTED_BASE + ["sheens match.go is modelled by the hand-written port RulioModel/Match.lean; tie = differential run below"]
     ck.cov["checker_cmd"] = "lake build Props.C05 && lake env lean .audit/Audit_C05.lean (#print axioms)"
+    import extract_loc
+    ok_x, msg_x = extract_loc.regenerate()       # Gen.castTypes (core/match.go) is part of Gen/Loc.lean
+    ck.cov.setdefault("extraction", []).append(msg_x[-1500:])
+    if not ok_x:
+        ck.violation("source extraction failed (the tie between /repo and the generated Lean text is broken): " + msg_x[-600:], {"extractor": msg_x[-3000:]}, tag="extract", no_input=True)
     pr = prove("C05", leanchecker=ck.thorough)
     ck.add_proof(pr)
     proof_broken = bool(pr["failed"])
